@@ -33,6 +33,10 @@
      /repo/sm4/sm4_asm.go; `openXor` is `Open` as it was BEFORE repair 25081bb (the tag comparison
      XORs the expected tag into the caller's ciphertext), for the regression example.
 
+  4. PACKAGE-LEVEL STATE.  `readOnlyMethods`: the explicit list of methods that may be called on
+     a package-level variable outside initialisation (checked against the generated
+     `SMGo.Gen.GoFacts.packageLevelMethodCalls` in Props/C17.lean).
+
   Core Lean only.
 -/
 import SMGo.Spec.Bytes
